@@ -625,7 +625,7 @@ package storage
 //@   modifies storeState, openStores, txn, @treeState, @cacheState, written, fdata, fsize, catRoot
 //@   allowpanic explicit
 //@   ensures[exists; C17] dbName != "" && dbExists(dbName) ==> result != nil && openStores == old(openStores)
-//@   ensures[ok.closed; C17] result == nil ==> openStores == old(openStores)
+//@   ensures[stores; C17] openStores == old(openStores)
 //@   ensures[unlock; C13] txn == 0
 
 //@ func ShowDB() ([]*Row, []*Field, error)
